@@ -491,6 +491,21 @@ def check_params(model, rep, sx: SX):
                                     for e in o.state.effects) for o in done)
         rep.decide(ok, 'C19.params', 'DCMotor.pwm[setter]', 'the duty-cycle setter can store a value outside [-1, 1]',
                    loc=st.loc)
+    # ... and the constructor may start the duty cycle only from a constant inside the range or through the validating setter: a
+    # constructor parameter stored straight into the private field is an unvalidated way in
+    init = model.member('DCMotor', '__init__')
+    fld_w = '__' + (sx.trivial_getter_field('DCMotor', 'pwm') or '_DCMotor__pwm').split('__', 1)[1]
+    bad_store = None
+    for a in ast.walk(init.node):
+        if isinstance(a, (ast.Assign, ast.AnnAssign, ast.AugAssign)):
+            tg = a.targets if isinstance(a, ast.Assign) else [a.target]
+            if any(isinstance(t, ast.Attribute) and t.attr == fld_w and isinstance(t.value, ast.Name) and t.value.id == 'self' for t in tg):
+                v = a.value
+                if not (isinstance(v, ast.Constant) and isinstance(v.value, (int, float)) and not isinstance(v.value, bool) and -1 <= v.value <= 1):
+                    bad_store = a
+    rep.decide(bad_store is None, 'C19.params', 'DCMotor.__init__[pwm]',
+               f'`{ast.unparse(bad_store)[:60] if bad_store is not None else ""}` stores a duty cycle into the private field without the range check of the setter',
+               loc=f'{init.module}:{bad_store.lineno if bad_store is not None else init.node.lineno}')
     rep.require('C19.params', 18)
 
 
